@@ -33,8 +33,8 @@ class Program:
         self._enum_cache = {}
         self._resolve_cache = {}
 
-    def load_crate(self, crate, mir_path, expanded_path):
-        fns = mir.parse_file(mir_path, crate)
+    def load_crate(self, crate, mir_path, expanded_path, stable_path=None):
+        fns = mir.parse_file(mir_path, crate, stable_path)
         self.fns[crate] = fns
         bl = {}
         for f in fns.values():
